@@ -5,7 +5,7 @@
 //
 // case file line:  <id> <params:T|U|D> <workers> <lcp:0|1> <set:c|s> <nsched> <seed> <hex,hex,...>
 //   params T = tiny (smallsort_threshold 16, TreeBits 2, inssort 4), U = tiny unroll-interleave variant
-//   (smallsort 32, TreeBits 3), D = default.   set c = unsigned char**, s = std::string*
+//   (smallsort 32, TreeBits 3), V = small (smallsort 64, TreeBits 3, inssort 8), D = default.   set c = unsigned char**, s = std::string*
 // output per run:  R <id> <sched#> <OK|FAIL what> PT <protocol events>
 #include <algorithm>
 #include <cstdint>
@@ -79,6 +79,14 @@ public:
     static const bool enable_work_sharing = false;
 };
 
+class ParamsSmall : public ssd::PS5ParametersDefault {
+public:
+    static const unsigned TreeBits = 3;
+    using Classify = ssd::SSClassifyTreeCalcUnrollInterleave<key_type, TreeBits>;
+    static const size_t smallsort_threshold = 64;
+    static const size_t inssort_threshold = 8;
+};
+
 static size_t lcp_of(const unsigned char* a, const unsigned char* b) {
     size_t i = 0; while (a[i] && a[i] == b[i]) ++i; return i;
 }
@@ -126,10 +134,12 @@ int main(int argc, char** argv) {
             if (set == "c") {
                 if (params == "T") sort_c<ParamsTiny>(ptrs.data(), n, lp);
                 else if (params == "U") sort_c<ParamsTinyU>(ptrs.data(), n, lp);
+                else if (params == "V") sort_c<ParamsSmall>(ptrs.data(), n, lp);
                 else sort_c<ssd::PS5ParametersDefault>(ptrs.data(), n, lp);
             } else {
                 if (params == "T") sort_s<ParamsTiny>(sstr.data(), n, lp);
                 else if (params == "U") sort_s<ParamsTinyU>(sstr.data(), n, lp);
+                else if (params == "V") sort_s<ParamsSmall>(sstr.data(), n, lp);
                 else sort_s<ssd::PS5ParametersDefault>(sstr.data(), n, lp);
             }
 #ifdef USE_SHIM
